@@ -1,14 +1,17 @@
 """C38 -- config file reload fires once for the final content despite lost fs events.
 
 1. TLC model-checks the design model ReloadWatch.tla (file operations with delivered / dropped /
-   duplicated notifications, event- and tick-driven reconciliation, debounce, callback that reads
-   the file itself): safety (never a call for the fingerprint evaluated last) and, under weak
-   fairness of Tick and Fire and with no state constraint, liveness (eventually always
-   evaluated = file, and what the application loaded is the file's content).  The loop that
-   trusts the fingerprint of the last reconciliation when the debounce expires (Recheck = FALSE)
-   must violate LoadsFinal in the model (non-vacuity; it is the hazard the scenarios aim at).
-2. TLC exports behaviours of the model as scenarios: all hazard behaviours of a reduced alphabet
-   (exhaustive, 3 operations) and simulated behaviours of the full alphabet.
+   duplicated notifications -- also inside the window of a running callback --, event- and
+   tick-driven reconciliation, debounce, a callback that reads the file itself and accepts or
+   rejects what it read): safety (never a call for the fingerprint evaluated last) and, under weak
+   fairness of the loop's steps and with no state constraint, liveness (eventually always the
+   callback has run for the file's content and the application loaded it).  Three plausible but
+   wrong designs (trust the last fingerprint at expiry / keep the evaluation after a callback
+   whose file moved / record a fingerprint only when the callback accepts) and the residual case
+   (file changed and restored inside one callback) must reach the hazard in the model
+   (non-vacuity; they are what the scenarios aim at).
+2. TLC exports behaviours of the model as scenarios: every hazard behaviour of those designs over
+   a reduced alphabet (exhaustive, 3 operations) and simulated behaviours of the full alphabet.
 3. The harness is the lossy event watcher of the real watch loop (injected through
    verifexport.ReloadWatch, real files in the scratch dir, real timers: 250 ms reconcile, 100 ms
    debounce): it performs each scenario's file operations, delivers / drops / duplicates the
@@ -42,28 +45,63 @@ META = {
 }
 
 
+def in_callback(run):
+    """where file operations fall relative to the last callback's own read: labels only"""
+    start = max((i for i, x in enumerate(run) if x.get("ev") == "rw.callback"), default=None)
+    if start is None:
+        return ""
+    pre = post = False
+    read = False
+    for x in run[start + 1:]:
+        if x.get("ev") == "cb":
+            read = True
+        elif x.get("ev") == "op.begin":
+            if read:
+                post = True
+            else:
+                pre = True
+        elif x.get("ev", "").startswith("rw."):
+            break
+    return "both" if pre and post else "pre" if pre else "post" if post else ""
+
+
 def run(ctx):
     r = ctx.tlc("ReloadWatch", ctx.pick("ReloadWatch.cfg", "ReloadWatch_big.cfg"), timeout=1800)
     mc = r.distinct
-    ctx.log("ReloadWatch.tla (re-checked design): %d states, safety + liveness under WF(Tick), WF(Fire) hold" % mc)
-    t = ctx.tlc("ReloadWatch", "ReloadWatch_trust.cfg", allow_violation=True, count=False)
-    if t.violated != "NoHazard":
-        raise vlib.ToolError("the unchecked design does not reach the stale-load hazard: LoadsFinal vacuous")
+    ctx.log("ReloadWatch.tla (the loop as designed: re-check at expiry, forget after a moved callback, record always; "
+            "rejecting callbacks, one file operation inside a callback): %d states, NoHazard, safety and liveness "
+            "under WF hold" % mc)
+    # designs that look plausible and are wrong must reach the hazard (non-vacuity), and their hazard
+    # behaviours are the scenarios aimed at the real loop
+    wrong = {"trust": "trusts the fingerprint of the last reconciliation at expiry",
+             "rearm": "re-arms after a moved callback but keeps the evaluation",
+             "accept": "records a fingerprint as evaluated only when the callback accepts",
+             "both": "the loop as designed, file changed and restored inside one callback (residual)"}
+    for name, what in wrong.items():
+        t = ctx.tlc("ReloadWatch", "ReloadWatch_%s.cfg" % name, allow_violation=True, count=False)
+        if t.violated != "NoHazard":
+            raise vlib.ToolError("design '%s' does not reach the hazard: NoHazard / liveness vacuous" % name)
     ts = ctx.tlc("ReloadWatch", "ReloadWatch_trustsafe.cfg", count=False)
-    ctx.log("ReloadWatch.tla (design trusting the last fingerprint): safety and Converges hold, rests with a stale load "
-            "(NoHazard / LoadsFinal violated; non-vacuity ok)")
+    ctx.log("ReloadWatch.tla: the designs %s each rest in the hazard (non-vacuity ok)" % sorted(wrong))
 
     rnd = random.Random(ctx.seed)
     haz = ctx.tlc("ReloadWatch", "ReloadWatch_haz3.cfg", count=False, timeout=1800).printed_json("SCEN")
     nhaz = len(haz)
     rnd.shuffle(haz)
-    haz = haz[:ctx.pick(60, 504)]
+    haz = haz[:ctx.pick(50, 504)]
+    aimed = []
+    for name in ("rearm", "accept"):
+        aimed += ctx.tlc("ReloadWatch", "ReloadWatch_haz%s.cfg" % name, count=False).printed_json("SCEN")
+    residual = ctx.tlc("ReloadWatch", "ReloadWatch_hazboth.cfg", count=False).printed_json("SCEN")
+    for s in residual:
+        s["residual"] = True
     sim = ctx.tlc("ReloadWatch", ctx.pick("ReloadWatch_scen3.cfg", "ReloadWatch_scen4.cfg"), workers=1, count=False,
-                  simulate=ctx.pick(220, 2500), depth=18, timeout=1800).printed_json("SCEN")
-    scens = haz + sim
+                  simulate=ctx.pick(200, 2500), depth=24, timeout=1800).printed_json("SCEN")
+    scens = haz + aimed + residual + sim
     rnd.shuffle(scens)
-    ctx.log("scenarios: %d of %d hazard behaviours (exhaustive enumeration, reduced alphabet) + %d simulated"
-            % (len(haz), nhaz, len(sim)))
+    ctx.log("scenarios: %d of %d stale-fingerprint hazards + %d hazards of the rearm/accept designs (file operation inside "
+            "the callback, rejecting callback) + %d residual + %d simulated"
+            % (len(haz), nhaz, len(aimed), len(residual), len(sim)))
     with open(ctx.path("scen.json"), "w") as fh:
         json.dump(scens, fh)
 
@@ -93,6 +131,14 @@ def run(ctx):
             last_fp = calls[-1]["fp"] if calls else "(initial)"
             if last_fp != final:
                 key, desc = "final-content-not-evaluated", "at rest the loop has not evaluated the final content"
+            elif last_read != final and in_callback(rj["run"]) == "both":
+                key = "stale-load:file-changed-and-restored-within-one-callback"
+                desc = ("the file was changed before the callback's read and restored before the callback returned: "
+                        "the loop cannot see it (callback read %s, file is %s)" % (last_read, final))
+            elif last_read != final and in_callback(rj["run"]):
+                key = "stale-load:file-changed-during-callback"
+                desc = ("the file changed while the callback ran (it read %s) and was %s afterwards; the loop kept the "
+                        "evaluation and rests although the application holds %s" % (last_read, final, last_read))
             elif last_read != final:
                 key = "stale-load:write-between-reconcile-and-callback"
                 desc = ("at rest the loop has evaluated fingerprint %s = file, but its callback ran while the file "
